@@ -40,13 +40,15 @@ structure Wf2 (c : Cfg) (s : State) : Prop where
   B : ∀ (t : Nat) th, s.thr[t]? = some th → vat s.acc t ≤ vat th.view t
   /-- only existing threads access the payload -/
   N : ∀ (u : Nat), s.thr[u]? = none → vat s.acc u = 0
-  /-- `K`: the payload accesses of a thread that holds no handle are covered by the release view
-  of the count's last message, or are known to a thread that still holds one -/
-  K : s.freed = 0 → ∀ (u : Nat) uh, s.thr[u]? = some uh → owned uh = 0 → excl uh = false →
+  /-- `K`: the payload accesses of a thread that holds neither a handle nor a reference are covered
+  by the release view of the count's last message, or are known to a thread that still holds a handle -/
+  K : s.freed = 0 → ∀ (u : Nat) uh, s.thr[u]? = some uh → owned uh = 0 → uh.refs = [] →
+        excl uh = false →
         vat s.acc u ≤ vat s.last.rel u ∨
         ∃ (t : Nat) (th : Thread), s.thr[t]? = some th ∧ 1 ≤ owned th ∧ vat s.acc u ≤ vat th.view u
-  /-- every write happens-before whatever an owner does -/
-  R : ∀ (t : Nat) th, s.thr[t]? = some th → 1 ≤ owned th → ∀ u : Nat, vat s.wr u ≤ vat th.view u
+  /-- every write happens-before whatever an owner or a borrower does -/
+  R : ∀ (t : Nat) th, s.thr[t]? = some th → (1 ≤ owned th ∨ th.refs ≠ []) →
+        ∀ u : Nat, vat s.wr u ≤ vat th.view u
   /-- a thread with exclusive access knows (after its pending fence) every access -/
   XK : ∀ (t : Nat) th, s.thr[t]? = some th → excl th = true → ∀ u : Nat, vat s.acc u ≤ vat (know th) u
   race : s.race = false
@@ -58,7 +60,7 @@ theorem Wf2.upd {c : Cfg} {s s' : State} (h : Wf2 c s) {t : Nat} {th th' : Threa
     (hthr : s'.thr = s.thr.set t th') (hlast : s'.last = s.last) (hfreed : s'.freed = s.freed)
     (hacc : s'.acc = s.acc) (hwr : s'.wr = s.wr) (hrace : s'.race = s.race)
     (huaf : s'.uaf = s.uaf ∨ (s.freed = 0 ∧ s'.uaf = (s.uaf || decide (0 < s.freed))))
-    (hown : owned th' = owned th)
+    (hown : owned th' = owned th) (hrefs : th'.refs = th.refs)
     (hview : ∀ u : Nat, vat th.view u ≤ vat th'.view u)
     (hexcl0 : excl th' = false → owned th = 0 → excl th = false)
     (hknow : excl th' = true → ∀ u : Nat, vat s.acc u ≤ vat (know th') u) :
@@ -81,15 +83,15 @@ theorem Wf2.upd {c : Cfg} {s s' : State} (h : Wf2 c s) {t : Nat} {th th' : Threa
     by_cases hut : u = t
     · subst hut; rw [get_set_self ht] at hu; simp at hu
     · rw [get_set_ne hut] at hu; exact hu
-  · intro hf u uh hu ho hx
+  · intro hf u uh hu ho hr hx
     rw [hfreed] at hf
     rw [hthr] at hu
     rw [hacc, hlast]
     have hold : vat s.acc u ≤ vat s.last.rel u ∨
         ∃ (v : Nat) (vh : Thread), s.thr[v]? = some vh ∧ 1 ≤ owned vh ∧ vat s.acc u ≤ vat vh.view u := by
       rcases get_set_cases ht hu with ⟨rfl, rfl⟩ | ⟨_, hu'⟩
-      · exact h.K hf _ th ht (by omega) (hexcl0 hx (by omega))
-      · exact h.K hf u uh hu' ho hx
+      · exact h.K hf _ th ht (by omega) (hrefs ▸ hr) (hexcl0 hx (by omega))
+      · exact h.K hf u uh hu' ho hr hx
     rcases hold with hl | ⟨v, vh, hv, hvo, hvk⟩
     · exact Or.inl hl
     · right
@@ -103,7 +105,7 @@ theorem Wf2.upd {c : Cfg} {s s' : State} (h : Wf2 c s) {t : Nat} {th th' : Threa
     rw [hthr] at hu
     rw [hwr]
     rcases get_set_cases ht hu with ⟨rfl, rfl⟩ | ⟨_, hu'⟩
-    · exact Nat.le_trans (h.R _ th ht (by omega) w) (hview _)
+    · exact Nat.le_trans (h.R _ th ht (by rw [← hown, ← hrefs]; exact ho) w) (hview _)
     · exact h.R u uh hu' ho w
   · intro u uh hu hx w
     rw [hthr] at hu
@@ -131,22 +133,38 @@ theorem vat_acquireInto_view_le' (th : Thread) (o : Ord) (r : List Nat) (u : Nat
     (hv : th.view = v) : vat v u ≤ vat (acquireInto th o r).view u := by
   subst hv; exact vat_acquireInto_view_le th o r u
 
-/-- In a state where `t` owns a handle, nobody else has exclusive access and nothing is freed. -/
+/-- In a state where `t` can use the buffer, nothing is freed and nobody else has exclusive access. -/
 theorem Wf1.owner_facts {c : Cfg} {s : State} (h1 : Wf1 c s) {t : Nat} {th : Thread}
-    (ht : s.thr[t]? = some th) (ho : 1 ≤ owned th) :
-    s.freed = 0 ∧ ∀ (u : Nat) uh, u ≠ t → s.thr[u]? = some uh → excl uh = false := by
-  refine ⟨?_, ?_⟩
-  · rcases Nat.lt_or_ge s.freed 1 with hf | hf
-    · omega
-    · have := (h1.Fz.2 (by have := h1.Fz.1; omega) t th ht).1; omega
-  · intro u uh hu huh
-    cases hx : excl uh with
-    | false => rfl
-    | true => have := ((h1.X u uh huh hx).1 t th (Ne.symm hu) ht).1; omega
+    (ht : s.thr[t]? = some th) (ho : 1 ≤ owned th ∨ th.refs ≠ []) :
+    s.freed = 0 ∧ ∀ (u : Nat) uh, u ≠ t → s.thr[u]? = some uh → excl uh = false :=
+  ⟨(h1.user_facts ht ho).1, (h1.user_facts ht ho).2.2⟩
+
+/-- When `t` holds the only handle and that handle is not lent, no reference is out. -/
+theorem Wf1.sole_no_refs {c : Cfg} {s : State} (h1 : Wf1 c s) {t : Nat} {th : Thread}
+    (ht : s.thr[t]? = some th) (ho : owned th = 1) (htot : total s = 1)
+    (hp : th.handles = 0 ∨ pinned s t = false) {w : Nat} {wh : Thread}
+    (hw : s.thr[w]? = some wh) : wh.refs = [] := by
+  cases hr : wh.refs with
+  | nil => rfl
+  | cons l rest =>
+    exfalso
+    have hl : l ∈ wh.refs := by rw [hr]; simp
+    obtain ⟨lh, hlh, hh⟩ := h1.Rf w wh l hw hl
+    by_cases hlt : l = t
+    · subst hlt
+      have : lh = th := by rw [ht] at hlh; injection hlh with hlh; exact hlh.symm
+      subst this
+      rcases hp with hp | hp
+      · omega
+      · exact not_mem_of_not_pinned hp hw hl
+    · have := owned_add_le_total s l t lh th hlt hlh ht
+      have : 1 ≤ owned lh := by simp [owned]; omega
+      omega
 
 /-- A payload read by an owner. -/
 theorem Wf2.read {c : Cfg} {s s' : State} (h1 : Wf1 c s) (h : Wf2 c s) {t : Nat} {th th' : Thread}
-    (ht : s.thr[t]? = some th) (hown1 : 1 ≤ owned th) (hown : owned th' = owned th)
+    (ht : s.thr[t]? = some th) (hown1 : 1 ≤ owned th ∨ th.refs ≠ []) (hown : owned th' = owned th)
+    (hrefs : th'.refs = th.refs)
     (hpc : th'.pc = none) (hview : th'.view = (tick th t).view)
     (hthr : s'.thr = s.thr.set t th') (hlast : s'.last = s.last)
     (hacc : s'.acc = vset s.acc t (vat th'.view t)) (hwr : s'.wr = s.wr)
@@ -168,13 +186,15 @@ theorem Wf2.read {c : Cfg} {s s' : State} (h1 : Wf1 c s) (h : Wf2 c s) {t : Nat}
     · subst hut; rw [get_set_self ht] at hu; simp at hu
     · rw [get_set_ne hut] at hu
       rw [hacc]; simp only [vat, vat_vset, if_neg hut]; exact h.N u hu
-  · intro hf u uh hu ho hx
+  · intro hf u uh hu ho hr hx
     rw [hthr] at hu
     rw [hlast, hacc]
     rcases get_set_cases ht hu with ⟨rfl, rfl⟩ | ⟨hne, hu'⟩
-    · omega
+    · rcases hown1 with h' | h'
+      · omega
+      · exact absurd (hrefs ▸ hr) h'
     · simp only [vat, vat_vset, if_neg hne]
-      rcases h.K hf0 u uh hu' ho hx with hl | ⟨v, vh, hv, hvo, hvk⟩
+      rcases h.K hf0 u uh hu' ho hr hx with hl | ⟨v, vh, hv, hvo, hvk⟩
       · exact Or.inl hl
       · right
         by_cases hvt : v = t
@@ -187,7 +207,7 @@ theorem Wf2.read {c : Cfg} {s s' : State} (h1 : Wf1 c s) (h : Wf2 c s) {t : Nat}
     rw [hthr] at hu
     rw [hwr]
     rcases get_set_cases ht hu with ⟨rfl, rfl⟩ | ⟨_, hu'⟩
-    · exact Nat.le_trans (h.R _ th ht (by omega) w) (hmono _)
+    · exact Nat.le_trans (h.R _ th ht hown1 w) (hmono _)
     · exact h.R u uh hu' ho w
   · intro u uh hu hx w
     rw [hthr] at hu
@@ -204,7 +224,7 @@ theorem Wf2.read {c : Cfg} {s s' : State} (h1 : Wf1 c s) (h : Wf2 c s) {t : Nat}
 /-- A payload write or the free, by a thread with exclusive access whose fences are done. -/
 theorem Wf2.exclAccess {c : Cfg} {s s' : State} (h1 : Wf1 c s) (h : Wf2 c s) {t : Nat} {th th' : Thread}
     (ht : s.thr[t]? = some th) (hx : excl th = true) (hpu : pendUse th = false)
-    (hpc : th'.pc = none) (hview : th'.view = (tick th t).view)
+    (hpc : th'.pc = none) (hview : th'.view = (tick th t).view) (hrefs : th'.refs = th.refs)
     (hthr : s'.thr = s.thr.set t th') (hlast : s'.last = s.last)
     (hcase : (s'.freed = s.freed ∧ owned th' = owned th ∧ 1 ≤ owned th) ∨
              (s'.freed = s.freed + 1 ∧ owned th' = 0))
@@ -231,7 +251,7 @@ theorem Wf2.exclAccess {c : Cfg} {s s' : State} (h1 : Wf1 c s) (h : Wf2 c s) {t 
     · subst hut; rw [get_set_self ht] at hu; simp at hu
     · rw [get_set_ne hut] at hu
       rw [hacc]; simp only [vat, vat_vset, if_neg hut]; exact h.N u hu
-  · intro hf u uh hu ho hxu
+  · intro hf u uh hu ho _ hxu
     rcases hcase with ⟨hfr, hown, hown1⟩ | ⟨hfr, _⟩
     · rw [hthr] at hu
       rw [hlast, hacc]
@@ -250,9 +270,13 @@ theorem Wf2.exclAccess {c : Cfg} {s s' : State} (h1 : Wf1 c s) (h : Wf2 c s) {t 
       · by_cases hw : w = u
         · subst hw; simp
         · simp only [vat, vat_vset, if_neg hw]
-          exact Nat.le_trans (h.R _ th ht hown1 w) (hmono w)
-      · omega
-    · have := (hoth u uh hne hu').1; omega
+          exact Nat.le_trans (h.R _ th ht (Or.inl hown1) w) (hmono w)
+      · rcases ho with ho | ho
+        · omega
+        · exact absurd (hrefs ▸ h1.excl_no_refs ht hx ht) ho
+    · rcases ho with ho | ho
+      · have := (hoth u uh hne hu').1; omega
+      · exact absurd (h1.excl_no_refs ht hx hu') ho
   · intro u uh hu hxu w
     rw [hthr] at hu
     rcases get_set_cases ht hu with ⟨rfl, rfl⟩ | ⟨hne, hu'⟩
@@ -274,7 +298,8 @@ theorem Wf2.rmwSub {c : Cfg} {s : State} (h1 : Wf1 c s) (h : Wf2 c s) {t : Nat} 
     (hacq : s.last.val = 0 → (o.isAcquire || localAcq code') = true) (nv : Nat) :
     Wf2 c (doRmw s t th o nv ⟨.drop, code', s.last.val⟩) := by
   have hown : owned th = th.handles + 1 := by simp [owned, inflight, hpc, hcode]
-  obtain ⟨hf0, hnox⟩ := h1.owner_facts ht (by omega)
+  have huse : 1 ≤ owned th ∨ th.refs ≠ [] := Or.inl (by omega)
+  obtain ⟨hf0, hnox⟩ := h1.owner_facts ht (Or.inl (by omega))
   have hle := owned_le_total s t th ht
   have htr := h1.track (by omega)
   generalize hth' : acquireInto { th with coh := s.hist.length + 1, pc := some ⟨.drop, code', s.last.val⟩ } o s.last.rel = th'
@@ -309,13 +334,13 @@ theorem Wf2.rmwSub {c : Cfg} {s : State} (h1 : Wf1 c s) (h : Wf2 c s) {t : Nat} 
     by_cases hut : u = t
     · subst hut; rw [get_set_self ht] at hu; simp at hu
     · rw [get_set_ne hut] at hu; exact hu
-  · intro hf u uh hu ho hx
+  · intro hf u uh hu ho hr hx
     dsimp only at hu ⊢
     rcases get_set_cases ht hu with ⟨rfl, rfl⟩ | ⟨hne, hu'⟩
     · left
       have := h.B _ th ht
       exact Nat.le_trans (by omega) (hrelv _)
-    · rcases h.K hf0 u uh hu' ho hx with hl | ⟨v, vh, hv, hvo, hvk⟩
+    · rcases h.K hf0 u uh hu' ho hr hx with hl | ⟨v, vh, hv, hvo, hvk⟩
       · left; exact Nat.le_trans (by omega) (hrelv u)
       · by_cases hvt : v = t
         · subst hvt
@@ -326,7 +351,7 @@ theorem Wf2.rmwSub {c : Cfg} {s : State} (h1 : Wf1 c s) (h : Wf2 c s) {t : Nat} 
           exact ⟨v, vh, by rw [get_set_ne hvt]; exact hv, hvo, hvk⟩
   · intro u uh hu ho w
     rcases get_set_cases ht hu with ⟨rfl, rfl⟩ | ⟨_, hu'⟩
-    · exact Nat.le_trans (h.R _ th ht (by omega) w) (hmono _)
+    · exact Nat.le_trans (h.R _ th ht huse w) (hmono _)
     · exact h.R u uh hu' ho w
   · intro u uh hu hx w
     dsimp only at hu ⊢
@@ -356,7 +381,9 @@ theorem Wf2.rmwSub {c : Cfg} {s : State} (h1 : Wf1 c s) (h : Wf2 c s) {t : Nat} 
           subst this
           have := h.B _ wh ht; omega
         · have hadd := owned_add_le_total s u w th wh (Ne.symm hwu) ht hw
-          rcases h.K hf0 w wh hw (by omega) (hnox w wh hwu hw) with hl | ⟨v, vh, hv, hvo, hvk⟩
+          have hnr : wh.refs = [] :=
+            h1.sole_no_refs ht (by omega) (by omega) (Or.inl (by omega)) hw
+          rcases h.K hf0 w wh hw (by omega) hnr (hnox w wh hwu hw) with hl | ⟨v, vh, hv, hvo, hvk⟩
           · omega
           · by_cases hvt : v = u
             · subst hvt
@@ -371,10 +398,14 @@ theorem Wf2.rmwSub {c : Cfg} {s : State} (h1 : Wf1 c s) (h : Wf2 c s) {t : Nat} 
 theorem Wf2.casSucc {c : Cfg} {s : State} (h1 : Wf1 c s) (h : Wf2 c s) {t : Nat} {th : Thread}
     (ht : s.thr[t]? = some th) {code : List AStep} {old : Nat}
     (hpc : th.pc = some ⟨.clone, code, old⟩) (hcode : localRet code = none)
-    (hh : 1 ≤ th.handles) (o : Ord) (nv : Nat) :
+    (o : Ord) (nv : Nat) :
     Wf2 c (doRmw s t th o nv ⟨.clone, [.ret .done], old⟩) := by
   have hown : owned th = th.handles := by simp [owned, inflight, hpc, hcode]
-  obtain ⟨hf0, hnox⟩ := h1.owner_facts ht (by omega)
+  have huse : 1 ≤ owned th ∨ th.refs ≠ [] := by
+    rcases (h1.pcok t th _ ht hpc).2.1 (Or.inl rfl) with h' | h'
+    · exact Or.inl (by omega)
+    · exact Or.inr h'
+  obtain ⟨hf0, hnox⟩ := h1.owner_facts ht huse
   generalize hth' : acquireInto { th with coh := s.hist.length + 1, pc := some ⟨.clone, [.ret .done], old⟩ } o s.last.rel = th'
   have hs' : doRmw s t th o nv ⟨.clone, [.ret .done], old⟩ =
       { s with hist := s.hist ++ [s.last],
@@ -402,11 +433,11 @@ theorem Wf2.casSucc {c : Cfg} {s : State} (h1 : Wf1 c s) (h : Wf2 c s) {t : Nat}
     by_cases hut : u = t
     · subst hut; rw [get_set_self ht] at hu; simp at hu
     · rw [get_set_ne hut] at hu; exact hu
-  · intro hf u uh hu ho hx
+  · intro hf u uh hu ho hr hx
     dsimp only at hu ⊢
     rcases get_set_cases ht hu with ⟨rfl, huh⟩ | ⟨hne, hu'⟩
     · rw [huh] at ho; omega
-    · rcases h.K hf0 u uh hu' ho hx with hl | ⟨v, vh, hv, hvo, hvk⟩
+    · rcases h.K hf0 u uh hu' ho hr hx with hl | ⟨v, vh, hv, hvo, hvk⟩
       · left; exact Nat.le_trans hl (hrelv u)
       · right
         by_cases hvt : v = t
@@ -417,7 +448,7 @@ theorem Wf2.casSucc {c : Cfg} {s : State} (h1 : Wf1 c s) (h : Wf2 c s) {t : Nat}
         · exact ⟨v, vh, by rw [get_set_ne hvt]; exact hv, hvo, hvk⟩
   · intro u uh hu ho w
     rcases get_set_cases ht hu with ⟨rfl, rfl⟩ | ⟨_, hu'⟩
-    · exact Nat.le_trans (h.R _ th ht (by omega) w) (hmono _)
+    · exact Nat.le_trans (h.R _ th ht huse w) (hmono _)
     · exact h.R u uh hu' ho w
   · intro u uh hu hx w
     dsimp only at hu
@@ -440,7 +471,7 @@ theorem Wf2.send {c : Cfg} {s : State} (h1 : Wf1 c s) (h : Wf2 c s) {t u : Nat} 
   have hvt' : th'.view = th.view := by subst hth'; rfl
   have hvu' : ∀ w : Nat, vat uh'.view w = max (vat uh.view w) (vat th.view w) := by
     intro w; subst huh'; simp [vat]
-  obtain ⟨hf0, hnox⟩ := h1.owner_facts ht (by omega)
+  obtain ⟨hf0, hnox⟩ := h1.owner_facts ht (Or.inl (by omega))
   have hu1 : (s.thr.set t th')[u]? = some uh := by rw [get_set_ne (Ne.symm htu)]; exact hu
   have hlook : ∀ (w : Nat) wh, ((s.thr.set t th').set u uh')[w]? = some wh →
       (w = u ∧ wh = uh') ∨ (w = t ∧ wh = th') ∨ (w ≠ t ∧ w ≠ u ∧ s.thr[w]? = some wh) := by
@@ -467,7 +498,7 @@ theorem Wf2.send {c : Cfg} {s : State} (h1 : Wf1 c s) (h : Wf2 c s) {t u : Nat} 
       by_cases hwt : w = t
       · subst hwt; rw [get_set_self ht] at hw; simp at hw
       · rw [get_set_ne hwt] at hw; exact hw
-  · intro hf w wh hw ho hx
+  · intro hf w wh hw ho hr hx
     dsimp only at hw ⊢
     rcases hlook w wh hw with ⟨hwu, hwh⟩ | ⟨hwt, hwh⟩ | ⟨hwt, hwu, hw'⟩
     · rw [hwh] at ho; omega
@@ -476,7 +507,7 @@ theorem Wf2.send {c : Cfg} {s : State} (h1 : Wf1 c s) (h : Wf2 c s) {t u : Nat} 
       refine ⟨u, uh', hgetu, by omega, ?_⟩
       rw [hvu']
       have := h.B _ th ht; omega
-    · rcases h.K hf0 w wh hw' ho hx with hl | ⟨v, vh, hv, hvo, hvk⟩
+    · rcases h.K hf0 w wh hw' ho hr hx with hl | ⟨v, vh, hv, hvo, hvk⟩
       · exact Or.inl hl
       · right
         by_cases hvt : v = t
@@ -496,9 +527,9 @@ theorem Wf2.send {c : Cfg} {s : State} (h1 : Wf1 c s) (h : Wf2 c s) {t u : Nat} 
     dsimp only at hw ⊢
     rcases hlook w wh hw with ⟨hwu, hwh⟩ | ⟨hwt, hwh⟩ | ⟨_, _, hw'⟩
     · rw [hwh, hvu']
-      have := h.R t th ht (by omega) x; omega
+      have := h.R t th ht (Or.inl (by omega)) x; omega
     · rw [hwh, hvt']
-      exact h.R t th ht (by omega) x
+      exact h.R t th ht (Or.inl (by omega)) x
     · exact h.R w wh hw' ho x
   · intro w wh hw hx x
     dsimp only at hw
@@ -506,5 +537,131 @@ theorem Wf2.send {c : Cfg} {s : State} (h1 : Wf1 c s) (h : Wf2 c s) {t u : Nat} 
     · rw [hwh, hxu'] at hx; simp at hx
     · rw [hwh, hxt'] at hx; simp at hx
     · rw [hnox w wh hwt hw'] at hx; simp at hx
+
+/-- Thread `u` lends a shared reference to the idle thread `t`. -/
+theorem Wf2.borrow {c : Cfg} {s : State} (h : Wf2 c s) {t u : Nat} {th uh : Thread}
+    (ht : s.thr[t]? = some th) (hu : s.thr[u]? = some uh)
+    (hpt : th.pc = none) (hh : 1 ≤ uh.handles) (k : Nat)
+    (th' : Thread) (hth' : { th with refs := u :: th.refs, view := vjoin th.view uh.view, coh := k } = th') :
+    Wf2 c { s with thr := s.thr.set t th' } := by
+  have hown' : owned th' = owned th := by subst hth'; simp [owned]
+  have hx' : excl th' = false := by subst hth'; simp [excl, hpt]
+  have hv' : ∀ w : Nat, vat th'.view w = max (vat th.view w) (vat uh.view w) := by
+    intro w; subst hth'; simp [vat]
+  have hr' : th'.refs ≠ [] := by subst hth'; simp
+  have hself : (s.thr.set t th')[t]? = some th' := get_set_self ht
+  refine ⟨?_, ?_, ?_, ?_, ?_, h.race, h.uaf⟩
+  · intro w wh hw
+    dsimp only at hw ⊢
+    rcases get_set_cases ht hw with ⟨rfl, rfl⟩ | ⟨_, hw'⟩
+    · rw [hv']; have := h.B _ th ht; omega
+    · exact h.B w wh hw'
+  · intro w hw
+    dsimp only at hw ⊢
+    apply h.N
+    by_cases hwt : w = t
+    · subst hwt; rw [hself] at hw; simp at hw
+    · rw [get_set_ne hwt] at hw; exact hw
+  · intro hf w wh hw ho hr hx
+    dsimp only at hw ⊢
+    rcases get_set_cases ht hw with ⟨rfl, rfl⟩ | ⟨hne, hw'⟩
+    · exact absurd hr hr'
+    · rcases h.K hf w wh hw' ho hr hx with hl | ⟨v, vh, hv, hvo, hvk⟩
+      · exact Or.inl hl
+      · right
+        by_cases hvt : v = t
+        · subst hvt
+          have : vh = th := by rw [ht] at hv; injection hv with hv; exact hv.symm
+          subst this
+          exact ⟨v, th', hself, by omega, by rw [hv']; omega⟩
+        · exact ⟨v, vh, by rw [get_set_ne hvt]; exact hv, hvo, hvk⟩
+  · intro w wh hw ho x
+    dsimp only at hw ⊢
+    rcases get_set_cases ht hw with ⟨rfl, rfl⟩ | ⟨_, hw'⟩
+    · rw [hv']
+      have := h.R u uh hu (Or.inl (by simp [owned]; omega)) x
+      omega
+    · exact h.R w wh hw' ho x
+  · intro w wh hw hx x
+    dsimp only at hw ⊢
+    rcases get_set_cases ht hw with ⟨rfl, rfl⟩ | ⟨_, hw'⟩
+    · rw [hx'] at hx; simp at hx
+    · exact h.XK w wh hw' hx x
+
+/-- The idle thread `t` gives a reference back to the idle lender `u` (join). -/
+theorem Wf2.unborrow {c : Cfg} {s : State} (h1 : Wf1 c s) (h : Wf2 c s) {t u : Nat} {th uh : Thread}
+    (ht : s.thr[t]? = some th) (hu : s.thr[u]? = some uh) (htu : t ≠ u)
+    (hpt : th.pc = none) (hpu : uh.pc = none) (hmem : u ∈ th.refs) (k : Nat)
+    (th' uh' : Thread) (hth' : { th with refs := th.refs.erase u } = th')
+    (huh' : { uh with view := vjoin uh.view th.view, coh := k } = uh') :
+    Wf2 c { s with thr := (s.thr.set t th').set u uh' } := by
+  have hownt' : owned th' = owned th := by subst hth'; simp [owned]
+  have hownu' : owned uh' = owned uh := by subst huh'; simp [owned]
+  have hxt' : excl th' = false := by subst hth'; simp [excl, hpt]
+  have hxu' : excl uh' = false := by subst huh'; simp [excl, hpu]
+  have hvt' : th'.view = th.view := by subst hth'; rfl
+  have hvu' : ∀ w : Nat, vat uh'.view w = max (vat uh.view w) (vat th.view w) := by
+    intro w; subst huh'; simp [vat]
+  have hru : uh'.refs = uh.refs := by subst huh'; rfl
+  have huown : 1 ≤ owned uh := by
+    obtain ⟨uh2, huh2, hh⟩ := h1.Rf t th u ht hmem
+    rw [hu] at huh2; injection huh2 with huh2; subst huh2
+    simp [owned]; omega
+  have hthr0 : th.refs ≠ [] := by intro e; rw [e] at hmem; simp at hmem
+  obtain ⟨hst, hsu⟩ := get_set2_self (th' := th') (uh' := uh') ht hu htu
+  have hlook := fun (w : Nat) wh => get_set2_cases (w := w) (wh := wh) (th' := th') (uh' := uh') ht hu htu
+  refine ⟨?_, ?_, ?_, ?_, ?_, h.race, h.uaf⟩
+  · intro w wh hw
+    dsimp only at hw ⊢
+    rcases hlook w wh hw with ⟨rfl, rfl⟩ | ⟨rfl, rfl⟩ | ⟨_, _, hw'⟩
+    · rw [hvu']; have := h.B _ uh hu; omega
+    · rw [hvt']; exact h.B _ th ht
+    · exact h.B w wh hw'
+  · intro w hw
+    dsimp only at hw ⊢
+    apply h.N
+    by_cases hwu : w = u
+    · subst hwu; rw [hsu] at hw; simp at hw
+    · by_cases hwt : w = t
+      · subst hwt; rw [hst] at hw; simp at hw
+      · rw [get_set2_ne hwt hwu] at hw; exact hw
+  · intro hf w wh hw ho hr hx
+    dsimp only at hw ⊢
+    -- the lender now knows everything the borrower knew
+    have hviaU : ∀ a : Nat, a ≤ vat th.view w →
+        ∃ (v : Nat) (vh : Thread), ((s.thr.set t th').set u uh')[v]? = some vh ∧ 1 ≤ owned vh ∧ a ≤ vat vh.view w :=
+      fun a ha => ⟨u, uh', hsu, by omega, by rw [hvu']; omega⟩
+    rcases hlook w wh hw with ⟨rfl, rfl⟩ | ⟨rfl, rfl⟩ | ⟨hwt, hwu, hw'⟩
+    · omega
+    · right
+      exact hviaU _ (h.B _ th ht)
+    · rcases h.K hf w wh hw' ho hr hx with hl | ⟨v, vh, hv, hvo, hvk⟩
+      · exact Or.inl hl
+      · right
+        by_cases hvt : v = t
+        · subst hvt
+          have : vh = th := by rw [ht] at hv; injection hv with hv; exact hv.symm
+          subst this
+          exact ⟨v, th', hst, by omega, by rw [hvt']; exact hvk⟩
+        · by_cases hvu : v = u
+          · subst hvu
+            have : vh = uh := by rw [hu] at hv; injection hv with hv; exact hv.symm
+            subst this
+            exact ⟨v, uh', hsu, by omega, by rw [hvu']; omega⟩
+          · exact ⟨v, vh, by rw [get_set2_ne hvt hvu]; exact hv, hvo, hvk⟩
+  · intro w wh hw ho x
+    dsimp only at hw ⊢
+    rcases hlook w wh hw with ⟨rfl, rfl⟩ | ⟨rfl, rfl⟩ | ⟨_, _, hw'⟩
+    · rw [hvu']
+      have := h.R _ uh hu (Or.inl huown) x; omega
+    · rw [hvt']
+      exact h.R _ th ht (Or.inr hthr0) x
+    · exact h.R w wh hw' ho x
+  · intro w wh hw hx x
+    dsimp only at hw ⊢
+    rcases hlook w wh hw with ⟨rfl, rfl⟩ | ⟨rfl, rfl⟩ | ⟨_, _, hw'⟩
+    · rw [hxu'] at hx; simp at hx
+    · rw [hxt'] at hx; simp at hx
+    · exact h.XK w wh hw' hx x
 
 end HipVerif.Model.Conc
